@@ -697,9 +697,9 @@ where
                     let a = gen::list_below(&mut c.rng, 4, p.node_labels);
                     let bb = gen::list_below(&mut c.rng, 4, p.node_labels);
                     let a1 = a.clone();
-                    c.emit("law.identity_is_spider:eq", vec![l(&a)], move || Self::law_identity_is_spider(&a1));
+                    c.emit("law.identity_is_spider", vec![l(&a)], move || Self::law_identity_is_spider(&a1));
                     let (a1, b1) = (a.clone(), bb.clone());
-                    c.emit("law.twist_is_spider:eq", vec![l(&a), l(&bb)], move || Self::law_twist_is_spider(&a1, &b1));
+                    c.emit("law.twist_is_spider", vec![l(&a), l(&bb)], move || Self::law_twist_is_spider(&a1, &b1));
                 }
             }
         }
